@@ -49,10 +49,19 @@ class FunctionSpec:
     ensures_raises: Dict[str, Callable[[Any], list]] = field(default_factory=dict)
     pure_defs: Dict[str, Any] = field(default_factory=dict)
     ghost_frozen: Set[str] = field(default_factory=set)   # ghosts assigned outside every loop: not havocked at loop heads
+    # a second (third ...) contract of the same function: another shape of the arguments, or a partial-correctness reading.
+    # Call sites use the variant named in the caller's `use_variant`, else the default contract, else the first variant the arguments fit.
+    variant: str = ''
+    use_variant: Dict[str, str] = field(default_factory=dict)     # callee qualname -> variant used at this function's call sites
+    # exceptions the function is allowed to raise at any point (partial correctness: the postcondition speaks about normal returns only).
+    # An out-of-range subscript / pop from an empty list then ends the path instead of being a safety obligation.
+    may_raise: Set[str] = field(default_factory=set)
+    keep_own_safety: bool = False      # with may_raise: only callees may raise; this function's own subscripts / pops stay safety obligations
+    verify_only: bool = False          # the body is verified against this contract, but call sites keep inlining the body (constructors)
 
     @property
     def fid(self):
-        return f"{self.file}::{self.qualname}"
+        return f"{self.file}::{self.qualname}" + (f"#{self.variant}" if self.variant else '')
 
 
 # ------------------------------------------------------------------------------------------------ views
@@ -165,6 +174,9 @@ class Ctx:
         object.__setattr__(self, '_st', st)
         object.__setattr__(self, '_names', names)
         object.__setattr__(self, '_extra', extra or {})
+        # True where the clause is being PROVED (postcondition of the function under verification, invariant at init/preserve,
+        # precondition at a call site): existential statements are then given by witness; False where it is ASSUMED (Skolem form)
+        object.__setattr__(self, 'proving', False)
 
     def __getattr__(self, name):
         if name in self._extra:
